@@ -206,6 +206,7 @@ func cmdASTFuzz(args []string) int {
 	kinds := fs.String("kinds", "mirror,swap,negate", "transformations")
 	files := fs.String("files", "", "comma separated repo-relative files (default: every non-test file of the analysed packages)")
 	bisect := fs.Bool("bisect", true, "on a report, repeat per function to name the function whose transformation triggers it")
+	dump := fs.String("dump", "", "directory that receives the transformed file of every function-level report")
 	_ = fs.Parse(args)
 	base, err := Load(*repo, "amd64", nil)
 	if err != nil {
@@ -308,6 +309,10 @@ func cmdASTFuzz(args []string) int {
 				k1, i1 := runAll(map[string][]byte{abs: out1})
 				if len(k1) > 0 || i1 != "" {
 					fmt.Printf("      -> function %s (%d constructs): %v %s\n", name, n1, k1, i1)
+					if *dump != "" {
+						_ = os.MkdirAll(*dump, 0o755)
+						_ = os.WriteFile(filepath.Join(*dump, kind+"_"+strings.ReplaceAll(rel, "/", "_")+"_"+name+".go"), out1, 0o644)
+					}
 				}
 			}
 		}
